@@ -100,6 +100,65 @@ def mchain(n):
     return n, list(reversed(ms))
 
 
+def capy_suffix_guard(g):
+    """the guard in front of an #import: evaluated on sample import strings, it fires exactly for those that do not end in `.capy` - whatever it is written
+    with (ends_with, strip_suffix, a path's extension ..)"""
+    from symint import SymInterp
+    from absint import Panic, CannotEstablish, Variant
+
+    class PI(SymInterp):
+        def default_method(self, recv, m, args, e):
+            if isinstance(recv, str):
+                if m == "ends_with":
+                    return recv.endswith(args[0])
+                if m == "starts_with":
+                    return recv.startswith(args[0])
+                if m == "strip_suffix":
+                    return recv[:-len(args[0])] if args[0] and recv.endswith(args[0]) else None
+                if m in ("as_str", "as_ref", "to_string", "to_owned", "clone", "to_str", "to_string_lossy", "as_os_str"):
+                    return recv
+                if m == "len":
+                    return len(recv.encode())
+                if m == "extension":
+                    # std::path::Path::extension: of the last component (trailing separators and `/.` are ignored); none for a dot file
+                    comps = [c for c in recv.split("/") if c not in ("", ".")]
+                    if not comps or comps[-1] == "..":
+                        return None
+                    name = comps[-1]
+                    if name.startswith(".") and name.count(".") == 1:
+                        return None
+                    return name.rsplit(".", 1)[1] if "." in name else None
+                if m == "to_lowercase":
+                    return recv.lower()
+            if m in ("is_some_and", "map_or") and (recv is None or isinstance(recv, str)):
+                if m == "is_some_and":
+                    return False if recv is None else self.call_closure(args[0], [recv])
+                return args[0] if recv is None else self.call_closure(args[1], [recv])
+            if m in ("is_some", "is_none"):
+                return (recv is not None) == (m == "is_some")
+            if m == "unwrap_or" and len(args) == 1:
+                return args[0] if recv is None else recv
+            return super().default_method(recv, m, args, e)
+
+        def binop(self, op, l, r, e):
+            if op in ("==", "!=") and (l is None or r is None):
+                return (l is r) == (op == "==")
+            if op in ("==", "!=") and isinstance(l, str) and isinstance(r, str):
+                return (l == r) == (op == "==")
+            return super().binop(op, l, r, e)
+    free = sorted({x["p"] for x in walk(g) if x.get("k") == "path" and "::" not in x["p"] and x["p"][0].islower()})
+    samples = ["a.capy", "lib/greet.capy", "a.cap", "a.txt", "capy", "lib/greet.capy/", "x.capy/.", "x.capy//", "lib/.capy", ".capy", "a.CAPY", "a.capy.txt", "dir.capy/file"]
+    for smp in samples:
+        it = PI(funcs={"Path::new": lambda i, a: a[0], "std::path::Path::new": lambda i, a: a[0], "Some": lambda i, a: a[0]})
+        try:
+            fired = it.eval(g, {v: smp for v in free})
+        except (Panic, CannotEstablish, KeyError, TypeError, AttributeError):
+            return False
+        if fired is not (not smp.endswith(".capy")):
+            return False
+    return True
+
+
 def r28a(ctx, run):
     f = ctx.syn.fn("Ctx::lower_import", B)
     F = "Ctx::lower_import"
@@ -116,7 +175,7 @@ def r28a(ctx, run):
         ("<mod_dir>/<m>/src/mod.capy is a file", lambda g: any(m["m"] == "is_file" for m in neg_mcalls(g)) and only_and(g), "ModDoesNotContainModFile"),
     ]
     need_imp = [
-        ("`.capy` suffix", lambda g: any(m["m"] == "ends_with" and [lit_str(a) for a in m["a"]] == [".capy"] for m in neg_mcalls(g)) and only_and(g), "ImportMustEndInDotCapy"),
+        ("`.capy` suffix", capy_suffix_guard, "ImportMustEndInDotCapy"),
         ("resolved path is a file", lambda g: any(m["m"] == "is_file" for m in neg_mcalls(g)) and only_and(g), "ImportDoesNotExist"),
         ("inside mod_dir or cwd", lambda g: sorted(arg_root(m) for m in neg_mcalls(g) if m["m"] == "is_sub_dir_of") == ["current_dir", "mod_dir"] and only_and(g), "ImportOutsideCWD"),
     ]
